@@ -30,8 +30,8 @@ func init() {
 			{ID: "C07.b", Title: "ATOMIC-ROTATION", Template: "T1+T3", MinInst: 2,
 				Rule: "the pool handed to the sequencing function is read, replaced by a fresh pool and published as inSequencing without an intervening Unlock; inSequencing is cleared only after the sequencing function returned",
 				Run:  c07b},
-			{ID: "C07.c", Title: "LOOKUP-THEN-INSERT", Template: "T1+T3+T6", MinInst: 6,
-				Rule: "in addLeafToPool the insertion into pool.byHash is reachable only through the miss edges of the lookups in the current pool, the in-sequencing map and the cache, all with the key computed from the submitted leaf, with no Unlock in between",
+			{ID: "C07.c", Title: "LOOKUP-THEN-INSERT", Template: "T1+T3+T6", MinInst: 7,
+				Rule: "in addLeafToPool the insertion into pool.byHash is reachable only through the miss edges of the lookups in the current pool, the in-sequencing map and the cache, all with the key computed from the submitted leaf, with no Unlock in between; every store of the leaf into pool.pendingLeaves is followed by that insertion on every path to a return",
 				Run:  c07c},
 			{ID: "C07.d", Title: "KEY-SCHEMA", Template: "T5", MinInst: 2,
 				Rule: "both computeCacheHash copies have identical bodies, and their byte schema is the entry-identifying part of MerkleTreeLeaf (entry type, issuer key hash for precerts, u24-prefixed certificate)",
@@ -218,6 +218,30 @@ func c07c(c *Ctx) {
 		c.Bad(f.Name+" key", I.Pos(), "the deduplication key is not computeCacheHash(leaf.Certificate, leaf.IsPrecert, leaf.IssuerKeyHash) of the submitted leaf")
 	} else {
 		c.OK(f.Name+" key", "key = computeCacheHash of the submitted leaf's identifying fields", []string{I.Pos()})
+	}
+	// every leaf that is put into the pool is registered under its key before the function returns:
+	// an admitted but unregistered leaf would not deduplicate a resubmission (sequenced twice)
+	pl := c.P.fieldVar(pkgCtlog, "pool", "pendingLeaves")
+	if pl != nil {
+		isIns := func(p Point, _ ast.Node) bool { return p == I.Site.P }
+		nSt, badSt := 0, false
+		for _, st := range f.StoresTo(pl) {
+			if !st.Direct {
+				// an element store pendingLeaves[n] = leaf (the slot taken over by an eviction)
+				if _, isIdx := ast.Unparen(st.Lhs).(*ast.IndexExpr); !isIdx {
+					continue
+				}
+			}
+			nSt++
+			rets := g.ReturnsFrom(st.Site.After(), Cut{Stop: isIns})
+			if len(rets) > 0 {
+				c.Bad(f.Name+" admitted leaf registered", f.Pos(rets[0]), "a leaf stored into pool.pendingLeaves at "+st.Pos()+" can be returned to its submitter without being inserted into pool.byHash: a resubmission before the round is cached would be sequenced a second time")
+				badSt = true
+			}
+		}
+		if !badSt && nSt > 0 {
+			c.add(Result{Instance: f.Name + " admitted leaf registered", Verdict: Discharged, Evals: nSt, Sites: []string{I.Pos()}, Detail: fmt.Sprintf("%d store(s) into pool.pendingLeaves, each followed by the byHash insertion on every path to a return", nSt)})
+		}
 	}
 	// map lookups
 	type lk struct {
